@@ -157,7 +157,7 @@ def replay(ch, scns, outs, prop_hooks, fam):
             ch.violation(dict(desc, kind="runaway"), {"step": step, "scenario": scn, "step_index": ti,
                          "what": "the command kept transmitting without bound (cut off after %d datagrams)" % len(res["sent"])})
             continue
-        m = conn.check_cmd_step(ch, fam, step, res, ml, desc)
+        m = conn.check_cmd_step(ch, fam, step, res, ml, desc, udp=bool(scn.get("udp")))
         ctx = {"scn": scn, "out": out, "step": step, "res": res, "model": m, "keys": keys, "seq0": seq0,
                "accepts": acc_by.get((si, ti), []), "desc": desc, "si": si, "ti": ti}
         for h in prop_hooks:
